@@ -31,6 +31,9 @@ type CHOp struct {
 	// Spokfile: "" = found by climbing from cwd; "abs" / "rel" = named with --spokfile (relative to cwd);
 	// with "home" the invocation is made from $HOME (outside the project) with --spokfile proj/spokfile
 	Spokfile string `json:"spokfile,omitempty"`
+	// CacheRO (run, level L2): spok's cache cannot be written during this invocation (every cache write fails with
+	// EACCES, nothing reaches the disk)
+	CacheRO bool `json:"cache_ro,omitempty"`
 }
 
 // CHCase is one case of scenario cachehist.
@@ -46,12 +49,19 @@ type CHCase struct {
 	FixedMtime bool `json:"fixed_mtime,omitempty"`
 	// Via: every invocation addresses the project through a symbolic link in its path ($HOME/via -> .): working
 	// directory, $PWD and --spokfile carry $HOME/via/proj/..., the files live in $HOME/proj
-	Via   bool   `json:"via,omitempty"`
-	Ops   []CHOp `json:"ops"`
-	Sched Sched  `json:"sched"`
+	Via bool `json:"via,omitempty"`
+	// Scale variants (rare): Wide = the first task also depends on the glob big/*.c, which matches this many files;
+	// AllFail = every command of the first task (which then has a few hundred commands) is set to fail at the start
+	Wide    int    `json:"wide,omitempty"`
+	AllFail bool   `json:"all_fail,omitempty"`
+	Ops     []CHOp `json:"ops"`
+	Sched   Sched  `json:"sched"`
 }
 
 type cachehist struct{}
+
+// WantsL3: what the process exit status does with hundreds of failures is visible only in the real binary.
+func (cachehist) WantsL3(cc any) bool { return cc.(*CHCase).AllFail }
 
 func init() { register(cachehist{}) }
 
@@ -220,6 +230,14 @@ func (cachehist) Gen(r *Rng, cfg GenConfig) any {
 	}
 	c.FixedMtime = r.Chance(1, 4)
 	c.Via = cfg.Prop != "nowriters" && r.Chance(1, 8)
+	if cfg.Prop != "nowriters" && r.Chance(1, 150) {
+		c.Wide = Pick(r, []int{130, 513, 600, 1100})
+		c.Prog.Tasks[0].Deps = append(c.Prog.Tasks[0].Deps, Dep{"glob", "big/*.c"})
+	}
+	if cfg.Prop == "C09" && r.Chance(1, 300) {
+		c.AllFail = true
+		c.Prog.Tasks[0].NCmd = Pick(r, []int{255, 256, 257, 512})
+	}
 	c.Prog.Seq = r.Chance(1, 4)
 	if len(c.Prog.Tasks) >= 2 && r.Chance(1, 10) {
 		// two tasks whose names differ only in letter case, with the same dependencies: distinct tasks
@@ -434,6 +452,10 @@ func (cachehist) Gen(r *Rng, cfg GenConfig) any {
 				op.Tasks = []string{Pick(r, names)}
 			}
 			op.Force = r.Chance(forceBias, 8)
+			if r.Chance(1, 30) {
+				op.CacheRO = true
+				op.Force = r.Chance(1, 2)
+			}
 			switch r.Intn(4) {
 			case 0, 1:
 				op.JSON = true
@@ -793,6 +815,19 @@ func (cachehist) Exec(w *World, cc any, prop string) *Result {
 	if c.FixedMtime {
 		res.count("fault_present:fixed_modification_times")
 	}
+	for i := 0; i < c.Wide; i++ {
+		s.write(fmt.Sprintf("big/f%04d.c", i), "1")
+	}
+	if c.Wide > 0 {
+		res.count("probe:task_with_hundreds_of_dependency_files")
+	}
+	if c.AllFail {
+		t := c.Prog.Tasks[0]
+		for i := 0; i < t.NCmd; i++ {
+			s.setCtl(t.Name, i, 1)
+		}
+		res.count("probe:task_with_hundreds_of_failing_commands")
+	}
 	if c.Via {
 		must(os.Symlink(".", filepath.Join(w.Home, "via")))
 		s.via = true
@@ -935,11 +970,20 @@ func (s *projState) judgeRun(res *Result, sched Sched, forceBefore bool, oi stri
 	for _, n := range closure {
 		classes = append(classes, s.stateClass(s.prog.Task(n)))
 	}
-	obs := w.Invoke(Invocation{Args: args, Cwd: cwd, Env: env, Inv: s.inv, Sched: sched, Faults: NoFaults()})
+	faults := NoFaults()
+	cacheRO := op.CacheRO && w.Level != "L3"
+	if cacheRO {
+		faults.WriteErrAll = "EACCES"
+		res.count("fault_present:cache_not_writable")
+	}
+	obs := w.Invoke(Invocation{Args: args, Cwd: cwd, Env: env, Inv: s.inv, Sched: sched, Faults: faults})
 	s.inv++
 	res.Steps += len(obs.Trace)
 	delta := s.logDelta()
 	v := s.view(delta)
+	for _, fd := range obs.Fired {
+		res.count("fault_fired:" + strings.SplitN(fd, ":", 2)[0])
+	}
 	res.event("%s run %v force=%v json=%v quiet=%v cwd=%q failed=%v log=%v perms=%v sched=%s", oi, op.Tasks, op.Force, op.JSON, op.Quiet, op.Cwd, obs.Failed, delta, obs.Perms, traceHash(obs.Trace))
 
 	if obs.Out.Panic != "" || obs.Out.Deadlock || obs.Out.Livelock || obs.HashLeak {
@@ -1088,7 +1132,10 @@ func (s *projState) judgeRun(res *Result, sched Sched, forceBefore bool, oi stri
 						named = true
 					}
 				}
-				if !named && anyMissing {
+				if !named && cacheRO && len(obs.Fired) > 0 {
+					// two causes of failure again: a failing command and a cache that cannot be written
+					res.count("accept_either:failing_command_and_unwritable_cache")
+				} else if !named && anyMissing {
 					// two causes of failure in one invocation (a failing command and a missing
 					// literal dependency): which one the error reports is not specified
 					res.count("accept_either:failing_command_and_missing_dependency")
@@ -1102,6 +1149,14 @@ func (s *projState) judgeRun(res *Result, sched Sched, forceBefore bool, oi stri
 			res.count("probe:explicit_cache_error_after_kill")
 		} else {
 			res.violate("C10", "failure-after-kill-is-about-the-cache", sig, "%s failed after a kill, no command fails and every dependency exists, yet the error does not mention the cache: %s", oi, short(obs.ErrText, 300))
+		}
+	} else if obs.Failed && !anyMissing && cacheRO && len(obs.Fired) > 0 {
+		// the cache could not be written: an explicit error is the right answer
+		if lt := strings.ToLower(obs.ErrText); strings.Contains(lt, "cache") || strings.Contains(lt, ".spok") {
+			res.count("probe:run_stopped_on_unwritable_cache")
+		} else {
+			res.Abandoned = fmt.Sprintf("%s failed with an unwritable cache but the error does not mention it: %s", oi, short(obs.ErrText, 200))
+			return true
 		}
 	} else if obs.Failed && !anyMissing {
 		res.Abandoned = fmt.Sprintf("%s failed although no command was set to fail and every literal dependency exists: %s", oi, short(obs.ErrText, 200))
@@ -1152,7 +1207,7 @@ func (s *projState) judgeRun(res *Result, sched Sched, forceBefore bool, oi stri
 			cp := in
 			s.last[n] = &cp
 			s.lastFail[n] = false
-			s.cacheGone[n] = false
+			s.cacheGone[n] = cacheRO && len(obs.Fired) > 0 // the success could not be recorded: a later skip is not required
 		} else {
 			s.lastFail[n] = true
 		}
